@@ -82,15 +82,16 @@ fn run(args: &[String]) {
     }
 
     let t0 = Instant::now();
-    let distinct = Distinct::new(if cfg!(miri) { 16 } else { 29 });
+    let distinct: &'static Distinct = Box::leak(Box::new(Distinct::new(if cfg!(miri) { 16 } else { 29 })));
+    let _ = rtcpmon::ctx::GLOBAL_DISTINCT.set(distinct);
     arm_watchdog(prop, &replays, seed, &tool, out.clone());
 
-    let mut total = Ctx::new(prop, &distinct, seed, thorough, scale);
+    let mut total = Ctx::new(prop, distinct, seed, thorough, scale);
     let results: Vec<std::thread::Result<Ctx>> = std::thread::scope(|sc| {
         let hs: Vec<_> = (0..threads)
             .filter(|sh| only_shard.map(|o| o == *sh).unwrap_or(true))
             .map(|shard| {
-                let d = &distinct;
+                let d = distinct;
                 let run = entry.run;
                 std::thread::Builder::new()
                     .stack_size(64 << 20)
@@ -220,6 +221,17 @@ fn arm_watchdog(prop: &'static str, replays: &str, seed: u64, tool: &str, out: O
                 .set("tool", tool.as_str())
                 .set("case", case);
             let _ = std::fs::write(&path, j.to_pretty());
+            if let Some(out) = &out {
+                // what the run had observed when it was ended
+                let j = J::obj()
+                    .set("prop", prop)
+                    .set("tool", tool.as_str())
+                    .set("ended_early", true)
+                    .set("evaluations", rtcpmon::ctx::GLOBAL_EVALS.load(std::sync::atomic::Ordering::Relaxed).max(1))
+                    .set("distinct_nontrivial", rtcpmon::ctx::GLOBAL_DISTINCT.get().map(|d| d.count()).unwrap_or(0))
+                    .set("rule", "counters at the moment the run was ended by a hang / abort of the code under test (evaluations in steps of 64)");
+                let _ = std::fs::write(out, j.to_pretty());
+            }
             println!("HANG property={prop} subject={subject} replay={path}");
             std::process::exit(3);
         }
@@ -237,6 +249,17 @@ fn arm_watchdog(prop: &'static str, replays: &str, seed: u64, tool: &str, out: O
                 .set("tool", tool.as_str())
                 .set("case", case);
             let _ = std::fs::write(&path, j.to_pretty());
+            if let Some(out) = &out {
+                // what the run had observed when it was ended
+                let j = J::obj()
+                    .set("prop", prop)
+                    .set("tool", tool.as_str())
+                    .set("ended_early", true)
+                    .set("evaluations", rtcpmon::ctx::GLOBAL_EVALS.load(std::sync::atomic::Ordering::Relaxed).max(1))
+                    .set("distinct_nontrivial", rtcpmon::ctx::GLOBAL_DISTINCT.get().map(|d| d.count()).unwrap_or(0))
+                    .set("rule", "counters at the moment the run was ended by a hang / abort of the code under test (evaluations in steps of 64)");
+                let _ = std::fs::write(out, j.to_pretty());
+            }
             println!("ABORT property={prop} subject={subject} replay={path}");
             // (no destructors, no atexit handlers: the aborting thread is parked in a signal handler in the middle of
             // whatever it was doing)
